@@ -482,7 +482,7 @@ func (c20) Run(e *Env) {
 	checkNext("first GET /event/next")
 	lastDoneInvocation = 0
 
-	nInv := e.Range(1, 5)
+	nInv := e.Range(1, 5*e.Depth())
 	for inv := 1; inv <= nInv; inv++ {
 		// the runtime hands out an invocation
 		invocation = inv
